@@ -136,3 +136,63 @@ def _(u):
 @unit("decoding.step.evaluate", file=DEC, func="DecodingStrategy.step", props=("C11",))
 def _(u):
     _step_unit(u, "Evaluate", False)
+
+
+# ---------------------------------------------------------------------------------------------
+# C10: top-k filtering keeps, per row, exactly the entries that are >= that row's k-th largest value
+# ---------------------------------------------------------------------------------------------
+def _topk_filter(u, k):
+    B = u.dim("B")
+    N = u.dim("N", k)
+    logits = u.tensor("logits", (B, N), "f")
+    ops.uses_inf()
+    u.requires(u.forall((B, N), lambda b, j: AND(logits.at(b, j) >= -ops.INF, logits.at(b, j) < ops.INF)))
+    with capture_topk() as ct:
+        out = u.run(DEC, "modify_logits_for_top_k_filtering", logits, k)
+    info = ct.results[0][0].prov[1]
+    V, P = info["V"], info["P"]
+    b = u.idx((B,), "b")
+    j = u.idx((N,), "j")
+    same_tensor(u, "topk.shape", out, (B, N), lambda bb, jj: out.at(bb, jj))
+    kth = V(zint(b), k - 1)
+    # the threshold is the row's OWN k-th largest value: an entry survives unchanged iff it reaches it, otherwise it is -inf
+    u.prove("topk.kept-iff-at-least-own-kth-largest", out.at(b, j) == ite(logits.at(b, j) >= kth, logits.at(b, j), -ops.INF))
+    for i in range(k):
+        u.prove(f"topk.top{i}-is-kept", out.at(b, P(zint(b), i)) == logits.at(b, P(zint(b), i)))
+    # "no more than k, ties aside": an entry that is kept although it is not one of the k top positions ties with the k-th value
+    not_top = AND(*[zint(j) != P(zint(b), i) for i in range(k)])
+    u.prove("topk.extra-kept-only-on-ties", IMPL(AND(not_top, out.at(b, j) > -ops.INF), logits.at(b, j) == kth))
+    u.canary("topk.removes-the-row-maximum", out.at(b, P(zint(b), 0)) == -ops.INF)
+
+
+class capture_topk:
+    def __init__(self):
+        self.results = []
+
+    def __enter__(self):
+        from tvc.methods import TF, TM
+
+        self.orig = (TM.get("topk"), TF.get("topk"))
+
+        def wrapped(t, *a, **kw):
+            r = self.orig[1](t, *a, **kw)
+            self.results.append(r)
+            return r
+
+        TM["topk"] = TF["topk"] = wrapped
+        return self
+
+    def __exit__(self, *a):
+        from tvc.methods import TF, TM
+
+        TM["topk"], TF["topk"] = self.orig
+
+
+@unit("decoding.top_k_filter.k2", file=DEC, func="modify_logits_for_top_k_filtering", props=("C10",))
+def _(u):
+    _topk_filter(u, 2)
+
+
+@unit("decoding.top_k_filter.k3", file=DEC, func="modify_logits_for_top_k_filtering", props=("C10",))
+def _(u):
+    _topk_filter(u, 3)
